@@ -113,6 +113,12 @@ impl AddressRecord {
         self.score
     }
 
+    /// Verification hook: address score.
+    #[cfg(feature = "verif")]
+    pub fn verif_score(&self) -> i32 {
+        self.score
+    }
+
     /// Get address.
     pub fn address(&self) -> &Multiaddr {
         &self.address
